@@ -114,9 +114,7 @@ impl<const LIMBS: usize> Uint<LIMBS> {
             let new_upper = upper
                 .overflowing_shr_vartime(shift)
                 .expect("shift within range");
-            let lower_hi = upper
-                .overflowing_shl_vartime(Self::BITS - shift)
-                .expect("shift within range");
+            let lower_hi = upper.wrapping_shl_vartime(Self::BITS - shift);
             let lower_lo = lower
                 .overflowing_shr_vartime(shift)
                 .expect("shift within range");
